@@ -154,6 +154,20 @@ def run_batch(batch):
     vm = girvm.VM(rows, "python", step_budget=4000)
     vm.run_unit()
     mrows = {rr.get("name"): rr for rr in rows if rr.get("operation") == "method_decl"}
+    owner = {}
+    for rr in rows:
+        for k, v in rr.items():
+            if isinstance(v, int) and v in vm.blocks and k.endswith("body"):
+                for st in vm.blocks[v]:
+                    owner[st["stmt_id"]] = rr["stmt_id"]
+
+    def loops_of(sid):
+        out = set()
+        while sid in owner:
+            sid = owner[sid]
+            if vm.by_id.get(sid, {}).get("operation") in ("while_stmt", "forin_stmt"):
+                out.add(sid)
+        return out
     res = []
     vc_vars = vc.VARS
     vc.VARS = ("x",)
@@ -213,7 +227,9 @@ def run_batch(batch):
             for sid in sorted(use_stmts):
                 o, unk = obs.get((sid, "x"), (set(), False))
                 classical = sorted(const_of[d] for d in rd_in.get(sid, set()) if d in const_of)
-                cmp.append((sid, sorted(truth.get(sid, set())), sorted(o), unk, classical, (sid, "x") in obs))
+                ul = loops_of(sid)
+                outside = sorted(const_of[d] for d in const_of if ul - loops_of(d))      # definitions outside a loop that contains the use
+                cmp.append((sid, sorted(truth.get(sid, set())), sorted(o), unk, classical, (sid, "x") in obs, outside))
             res.append((name, "ok", cmp))
     finally:
         vc.VARS = vc_vars
@@ -244,7 +260,7 @@ def main():
             loop_free = not (set(feats) & {"while", "for"})
             if len(samples) < 3 and stats["programs"] % 401 == 0:
                 samples.append({"program": text, "uses": [[c[0], c[1], c[2], c[4]] for c in cmp]})
-            for sid, tvals, ovals, unk, classical, present in cmp:
+            for sid, tvals, ovals, unk, classical, present, outside in cmp:
                 if not tvals and not classical:
                     continue            # unreachable use (after returns on every path)
                 stats["uses"] += 1
@@ -254,7 +270,12 @@ def main():
                                           {"source": text, "stmt": sid}, size=size * 1000 + len(text), text=text)
                     continue
                 missing = set(tvals) - set(ovals)
-                if missing and not unk:
+                if missing and not unk and missing <= set(outside):
+                    # one class: the use sits in a loop, the missed definitions lie outside that loop (they reach it in the first iteration)
+                    rep.feature_violation("loop-entry-definition-dropped-at-use-inside-loop", set(), f"use of x at statement {sid} inside a loop: definitions "
+                                          f"with values {sorted(missing)} made outside the loop reach it in the first iteration, the analysis has {ovals}; program:\n{text}",
+                                          {"source": text, "stmt": sid}, size=size * 1000 + len(text), text=text)
+                elif missing and not unk:
                     rep.feature_violation("reaching-definition-missed", fs, f"use of x at statement {sid}: definitions with values {sorted(missing)} reach it in some "
                                           f"execution (loops <= 1 iteration), the analysis has {ovals}; program:\n{text}",
                                           {"source": text, "stmt": sid}, size=size * 1000 + len(text), text=text)
@@ -271,8 +292,6 @@ def main():
                     elif not missing and not dead:
                         rep.feature_violation("loop-free-not-exact", fs, f"use of x at statement {sid}: analysis {ovals}{' + unknown' if unk else ''}, classical solution "
                                               f"{classical}; program:\n{text}", {"source": text, "stmt": sid}, size=size * 1000 + len(text), text=text)
-    for pre in ("reaching-definition-missed", "dead-definition-reaches"):
-        rep.feature_universe(pre, tested)
     new, known = rep.finish()
     evidence.write(PID, "exploration", {
         "evaluations": stats["uses"], "distinct_nontrivial": stats["programs"],
@@ -299,7 +318,7 @@ def replay(path):
         print(text)
         print(res)
         for n, status, cmp in res.get("results", []):
-            for sid, tvals, ovals, unk, classical, present in cmp or []:
+            for sid, tvals, ovals, unk, classical, present, outside in cmp or []:
                 if (set(tvals) - set(ovals)) or (set(ovals) - set(classical)):
                     print(f"VIOLATION property={PID} replay={path}")
                     return 1
